@@ -6,7 +6,7 @@ from hypothesis import strategies as st
 
 from .. import exprgen
 from ..common import Outcome, SplitMix
-from ..exprsem import DEFAULT_NAMES, first_difference, make_eval
+from ..exprsem import DEFAULT_NAMES, ambiguous_twin_binding, first_difference, has_worlds, make_eval
 from ..sem import FreeVariable, MultiWorld
 
 ID = "C10"
@@ -37,7 +37,7 @@ ESSENTIAL_LABELS = {t: ["has:sum", "has:frac", "has:prod", "sum-collapsed", "dec
 @st.composite
 def _case(draw):
     depth = draw(st.sampled_from([1, 2, 2, 3, 3, 4]))
-    spec = draw(exprgen.expr_specs(depth=depth))
+    spec = draw(exprgen.expr_specs(depth=depth, mixed_worlds=True))
     mode = draw(st.sampled_from(["perm", "perm+extra", "none"]))
     order = None
     if mode != "none":
@@ -109,7 +109,10 @@ def check(case) -> Outcome:
     out = Outcome(key=str(spec) + str(case["order"]))
     labels = {"has:" + k for k in kinds(spec)}
     names = list(DEFAULT_NAMES)
-    ev, card = make_eval(names, case["mseed"], case["card3"])
+    # expressions with multi-world terms are read in a functional model with shared noise (so that terms in different
+    # worlds are mutually consistent); assignments where either side is undefined (structural zeros) are not compared
+    worlds = has_worlds(spec)
+    ev, card = make_eval(names, case["mseed"], case["card3"], worlds=worlds)
     e = exprgen.build_raw(spec)
     text = e.to_y0()
 
@@ -124,8 +127,12 @@ def check(case) -> Outcome:
         c = canonicalize(e, order)
     except Exception as ex:
         return fail("canonicalize-raised", exc=repr(ex)[:300])
+    if worlds and (ambiguous_twin_binding(e) or ambiguous_twin_binding(c)):
+        labels.add("sum-binds-a-name-present-in-two-worlds(outside the domain)")
+        out.labels = sorted(labels)
+        return out
     try:
-        d = first_difference(ev, e, c, names, card)
+        d = first_difference(ev, e, c, names, card, skip_undefined=worlds)
     except (FreeVariable, MultiWorld) as ex:
         return fail("canonical-form-not-evaluable", exc=repr(ex), canonical=c.to_y0())
     if d:
@@ -145,9 +152,11 @@ def check(case) -> Outcome:
             eq = canonical_expr_equal(e, b)
         except Exception as ex:
             return fail("canonical_expr_equal-raised", other=b.to_y0(), exc=repr(ex)[:300])
+        if eq and worlds and ambiguous_twin_binding(b):
+            continue
         if eq:
             labels.add("declared-equal")
-            d = first_difference(ev, e, b, names, card)
+            d = first_difference(ev, e, b, names, card, skip_undefined=worlds)
             if d:
                 return fail("declared-canonically-equal-but-semantically-different", other=b.to_y0(), variant=vname, **d)
         else:
